@@ -109,10 +109,15 @@ class Driver:
         class Base:
             dispatch = event.dispatcher(TargetEvents)
 
-        A = type("A", (Base,), {})
-        B = type("B", (A,), {})
+        self.shape = state.get("shape", "chain")
+        if self.shape == "diamond":       # Base <- L, Base <- R; the late class is M(L, R) or M(R, L)
+            c2 = type("L", (Base,), {})
+            c3 = type("R", (Base,), {})
+        else:                             # Base <- A <- B; the late class is C(parent)
+            c2 = type("A", (Base,), {})
+            c3 = type("B", (c2,), {})
         self.events_cls = TargetEvents
-        self.cls = {1: Base, 2: A, 3: B}
+        self.cls = {1: Base, 2: c2, 3: c3}
         self.inst = {}
         self.calls = []
         self.boom = False
@@ -186,7 +191,11 @@ class Driver:
                     if f_ == act["f"]:
                         self.dead.append(self.wrappers.pop(wid_))
             elif a == "CreateSubclass":
-                self.cls[4] = type("C", (self.cls[act["t"]],), {})
+                if self.shape == "diamond":
+                    bases = (self.cls[2], self.cls[3]) if act["t"] == 23 else (self.cls[3], self.cls[2])
+                    self.cls[4] = type("M", bases, {})
+                else:
+                    self.cls[4] = type("C", (self.cls[act["t"]],), {})
             elif a == "NewInstance":
                 k = act["t"] - 10
                 obj = self.cls[act["f"]]()
